@@ -452,6 +452,14 @@ def h_size(ctx, sp):
         lost_w = [x for x in e_wd if x not in got_w]
         ctx.check('every-announce-sent', s_or(room < need_max, not lost_a), sig='C09:lost:announce', info=dict(base, lost=[repr(x) for x in lost_a[:3]]))
         ctx.check('every-withdraw-sent', s_or(room < need_max, not lost_w), sig='C09:lost:withdraw', info=dict(base, lost=[repr(x) for x in lost_w[:3]]))
+        # a withdrawal needs no path attribute (RFC 4271 4.3): however large the attributes of the routes it travels with, it fits a
+        # message of its own as soon as 23 octets and the NLRI do ("no message is produced for THOSE routes" is about the announces)
+        w_sizes = [n for k, n in needs if k in ('w4', 'w6')]
+        if w_sizes:
+            if lost_w:
+                ctx.cover('withdraw-lost-for-want-of-room-for-attributes')
+            ctx.check('withdraws-need-no-attributes', s_or(limit - 23 - 10 < max(w_sizes), not lost_w), sig='C09:lost:withdraw:attributes-leave-no-room',
+                      info=dict(base, lost=[repr(x) for x in lost_w[:3]]))
         if not lost_a and not lost_w:
             ctx.cover('complete')
     return {'msgs': shape, 'exc': None if exc is None else type(exc).__name__}
